@@ -33,12 +33,18 @@ CHECKS = {
    "All formulae up to a node bound that contain EW or AW on the core networks, compared point-wise with the oracle's weak-until definitions.", "§3 C13"),
  "C15": ("model_checking", "bounded-exhaustive enumeration of formulae x spare-variable counts with explicit-state anchor",
    "Every formula up to a node bound / template on graphs with k = d, d+1, d+3 spare variable sets: sanitised == raw point-wise == oracle; canonical variable set; subset of and usable with SymbolicAsyncGraph::new; BDD-identical across k.", "§3 C15"),
+ "C16": ("exploration", "bounded-exhaustive enumeration of archive round trips (network x format x k x label->set map x formula list)",
+   "Every combination of a declared finite family is written with build_result_archive, unzipped independently, the archived model re-parsed, the bundle reloaded and every set compared point-wise and as BDD; reloaded sets are used as wild-card/domain context; analysis archives: entry i <-> line i.", "§3 C16"),
+ "C17": ("exploration", "bounded-exhaustive enumeration of CLI configurations executed on the binary built from the working tree, compared with the library",
+   "All combinations of model format x formula-file layout x print option x -o x -e x formula lists on small networks: stdout blocks, counts, exhaustive listings and archived BDDs are compared with the library's results; mismatched context archives and 13 failure configurations must give a message and no crash.", "§3 C17"),
  "C18": ("model_checking", "bounded-exhaustive differential: unsafe_ex vs standard evaluation on the loop-insensitive fragment / steady-state-free networks",
    "All formulae of the loop-insensitive fragment up to a node bound on every core network, and all formulae over all operators on the networks whose independently computed transition systems have no steady state in any colour; raw results must be identical.", "§3 C18"),
  "C20": ("model_checking", "exhaustive enumeration of (formula, colour) pairs: parametrised result sliced at each colour vs evaluation on the instantiated network",
    "Every formula up to a node bound / template x EVERY valid colour of every multi-colour core network: states of the parametrised result at the colour == model_check_formula on pick_witness(colour) (== oracle, which evaluates colours in isolation). Bundled: partially erased myeloid (all 2 180 colours), sub-lattices of 64k-colour models in the thorough tier.", "§3 C20"),
  "C14": ("exploration", "bounded-exhaustive input enumeration through every string entry point under catch_unwind with a reference accept/reject oracle",
    "All short strings and token sequences, all label subsets for all small extended formulae, deep inputs; each through 21 string entry points on graphs with 0..3 spare variable sets; Ok/Err must match the reference parser + scope rules + label presence + k >= depth; a panic is always a violation.", "§3 C14"),
+ "C19": ("exploration", "bounded-exhaustive enumeration of aeon networks through the converter binary with an independent truth-table oracle",
+   "Every network of a converter grammar (1..3 variables, implicit functions, shared uninterpreted symbols of arity 0..2, explicit expressions, constrained/unconstrained regulations, name-clash sub-family) is run through the convert-aeon-to-bnet binary; for every target the set of truth tables under all valuations of the fresh inputs must equal the set of all instantiations of the input function.", "§3 C19"),
 }
 NOT_YET = {
 }
